@@ -12,6 +12,8 @@ enum Operation {
     Union,
     /// Return the entire plane.
     EntirePlane,
+    /// Return no points.
+    Empty,
 }
 
 impl Operation {
@@ -21,6 +23,7 @@ impl Operation {
             Operation::Intersection => first && second,
             Operation::Union => first || second,
             Operation::EntirePlane => true,
+            Operation::Empty => false,
         }
     }
 }
@@ -68,9 +71,22 @@ impl PlaneSector {
             core::mem::swap(&mut angle_start, &mut angle_end)
         }
 
+        let half_plane_right = OriginLinearEquation::with_angle(angle_start);
+        let half_plane_left = OriginLinearEquation::with_angle(angle_end);
+
+        // For sweep angles below the angular resolution both half planes share the same boundary
+        // line. Their intersection would be the entire line through the center (in both
+        // directions) instead of a ray, so such a degenerate sector is treated as empty.
+        let operation = if operation == Operation::Intersection && half_plane_left == half_plane_right
+        {
+            Operation::Empty
+        } else {
+            operation
+        };
+
         Self {
-            half_plane_right: OriginLinearEquation::with_angle(angle_start),
-            half_plane_left: OriginLinearEquation::with_angle(angle_end),
+            half_plane_right,
+            half_plane_left,
             operation,
         }
     }
